@@ -19,17 +19,19 @@ def digitsVal : List Char → Nat → Option Nat
 
 /-- `strconv.ParseInt(s, 10, bits)` with bits ∈ {0 (=64), 32, 64}: optional sign, at least one
     digit, no underscores, value in `[-2^(bits-1), 2^(bits-1) - 1]` -/
+def splitSign : Str → Bool × Str
+  | '+' :: r => (false, r)
+  | '-' :: r => (true, r)
+  | r => (false, r)
+
 def parseIntGo (bits : Nat) (s : Str) : Option Int :=
   let b := if bits = 0 then 64 else bits
-  let (neg, ds) := match s with
-    | '+' :: r => (false, r)
-    | '-' :: r => (true, r)
-    | r => (false, r)
-  if ds.isEmpty then none else
-  match digitsVal ds 0 with
+  let sd := splitSign s
+  if sd.2.isEmpty then none else
+  match digitsVal sd.2 0 with
   | none => none
   | some n =>
-    if neg then (if n ≤ 2 ^ (b - 1) then some (-(n : Int)) else none)
+    if sd.1 then (if n ≤ 2 ^ (b - 1) then some (-(n : Int)) else none)
     else (if n < 2 ^ (b - 1) then some (n : Int) else none)
 
 /-- decimal digits of a natural number, most significant first -/
